@@ -16,11 +16,12 @@ RULE = ("plated factor graphs: <=5 tensor factors over <=4 variables (sizes 1-3)
         "subset (random graphs) or every subset pattern (exhaustive tiny graphs: <=3 factors, <=2 vars, <=2 plates); every eliminate set "
         "(tiny) or random eliminate sets; 5 semirings; entry points sum_product, partial_sum_product in one call and in two successive "
         "calls over a closed split, modified_/dynamic_partial_sum_product with empty Markov steps, plated einsum, pedantic=True, integer "
-        "plate scales vs tiling; optional free real parameter on a factor. Non-trivial: >=1 plate or >=2 factors, value compared at every "
+        "plate scales vs tiling; optional free real parameter on a factor; graphs that cannot be eliminated exactly (two variables in incomparable "
+        "plate sets joined inside both) must raise ValueError from every entry point. Non-trivial: >=1 plate or >=2 factors, value compared at every "
         "kept point; distinct by (semiring, graph structure, eliminate set, sizes)")
 ASSUMPTIONS = ["numpy arithmetic for the unrolled table", "oracle undefined when a preserved variable lives in an eliminated plate (only the pedantic error is checked there)"]
 MIN_NONTRIVIAL = {"quick": 800, "thorough": 8000}
-REQUIRED_COUNTERS = ["sum_product:ok", "partial-two-calls:ok", "modified:ok", "dynamic:ok", "einsum-plated:ok", "pedantic:raised-as-required", "scale:ok"]
+REQUIRED_COUNTERS = ["sum_product:ok", "partial-two-calls:ok", "modified:ok", "dynamic:ok", "einsum-plated:ok", "pedantic:raised-as-required", "scale:ok", "intractable:raised-as-required"]
 
 NPB = {"add": np.add, "mul": np.multiply, "logaddexp": np.logaddexp, "max": np.maximum, "min": np.minimum}
 UNIT = {"add": 0.0, "mul": 1.0, "logaddexp": -np.inf, "max": -np.inf, "min": np.inf}
@@ -99,6 +100,8 @@ def plan(tier, seed):
     n = 12 if tier == "quick" else 40
     for i in range(n):
         shards.append({"name": "random-%d" % i, "kind": "random", "n": 90 if tier == "quick" else 500, "timeout": 3000})
+    for i in range(2 if tier == "quick" else 8):
+        shards.append({"name": "intractable-%d" % i, "kind": "intractable", "n": 60 if tier == "quick" else 250, "timeout": 3000})
     ne = 8 if tier == "quick" else 24
     for i in range(ne):
         shards.append({"name": "tiny-%d" % i, "kind": "tiny", "index": i, "of": ne, "timeout": 3000})
@@ -176,7 +179,7 @@ def closed_splits(eliminate, plates, ordv, factors):
                 yield e1, e2
 
 
-def run_graph(factors, sizes, plates, eliminate, sr, res, riders, rng, real_param=False, tag=""):
+def run_graph(factors, sizes, plates, eliminate, sr, res, riders, rng, real_param=False, tag="", intractable=False):
     import funsor
     from funsor import ops
     from funsor.sum_product import (dynamic_partial_sum_product, modified_partial_sum_product, partial_sum_product, sum_product)
@@ -211,9 +214,14 @@ def run_graph(factors, sizes, plates, eliminate, sr, res, riders, rng, real_para
                 r = thunk()
         except ValueError as e:
             res.count("%s:ValueError" % label)
+            if intractable:
+                res.count("intractable:raised-as-required")
             return "raised"
         except Exception as e:
             res.count("%s:declined:%s" % (label, type(e).__name__))
+            if intractable:
+                res.violation("plated:intractable-not-valueerror", "%s(%s,%s) raised %s (%s) on a graph that cannot be eliminated exactly; a ValueError is required | factors=%s plates=%s eliminate=%s sizes=%s" % (
+                    label, s, p, type(e).__name__, str(e)[:80], [f[0] for f in factors], sorted(plates), sorted(eliminate), sizes), case=case)
             return "raised"
         if undefined:
             res.count("%s:value-when-oracle-undefined" % label)
@@ -317,6 +325,35 @@ def run_shard(shard, res):
                 factors.append((tuple(names), data))
             eliminate = {n for n in plates + vars_ if rng.random() < 0.7}
             run_graph(factors, sizes, plates, eliminate, sr, res, riders, rng, real_param=rng.random() < 0.15)
+        return
+    if shard["kind"] == "intractable":
+        # graphs that cannot be eliminated exactly: two variables living in incomparable plate sets are joined by a factor inside both
+        # plate sets; with everything eliminated every entry point must raise ValueError (or return the brute-force value), never
+        # another exception or another number
+        for _ in range(shard["n"]):
+            extra_plate = rng.random() < 0.4
+            pa, pb = ["p"], (["q", "r"] if extra_plate else ["q"])
+            if rng.random() < 0.5:
+                pa, pb = pb, pa
+            plates = sorted(set(pa + pb))
+            sizes = {n: int(rng.integers(1, 3)) for n in plates}
+            sizes.update({"a": int(rng.integers(2, 4)), "b": int(rng.integers(2, 4)), "c": 2})
+            groups = [["a"] + pa, ["b"] + pb, ["a", "b"] + plates]
+            if rng.random() < 0.4:
+                groups.append(["c"] + (plates if rng.random() < 0.5 else []))
+                if rng.random() < 0.5:
+                    groups[2] = groups[2] + ["c"]
+            factors = []
+            for names in groups:
+                names = list(names)
+                rng.shuffle(names)
+                factors.append((tuple(names), np.round(rng.random(tuple(sizes[n] for n in names)) * 1.5 + 0.25, 2)))
+            order = rng.permutation(len(factors))
+            factors = [factors[i] for i in order]
+            used = set().union(*[set(f[0]) for f in factors])
+            sr = SEMIRINGS[int(rng.integers(len(SEMIRINGS)))]
+            res.count("intractable:graphs")
+            run_graph(factors, sizes, plates, used, sr, res, riders, rng, intractable=True)
         return
     # exhaustive tiny graphs: <=3 factors over subsets of {a, b, p, q}, every eliminate set
     names = ["p", "q", "a", "b"]
